@@ -84,11 +84,11 @@ Conf(T, r, defs, p, exact) ==
          IF \E i \in 1..Len(T.xs) : Conf(T.xs[i], r, defs, p, exact) = "" THEN "" ELSE p \o ".union"
     [] T.k = "cls" ->
          LET d == defs[T.c] IN
-         IF d.flavour \in {"typeddict", "typeddict_nr", "typeddict_inh", "typeddict_inh2", "typeddict_inh3", "typeddict_te"} THEN
+         IF d.flavour \in {"typeddict", "typeddict_nr", "typeddict_inh", "typeddict_inh2", "typeddict_inh3", "typeddict_te", "typeddict_fn"} THEN
             IF r.k # "dict" THEN p \o ".typeddict.cls"
             ELSE FirstBad([i \in 1..Len(d.fields) |->
                    LET f == d.fields[i] v == DictVal(r, f[1]) IN
-                   IF v.k = "missing" THEN (IF d.flavour \notin {"typeddict", "typeddict_te"} /\ f[3] THEN "" ELSE p \o ".typeddict.required")
+                   IF v.k = "missing" THEN (IF d.flavour \notin {"typeddict", "typeddict_te", "typeddict_fn"} /\ f[3] THEN "" ELSE p \o ".typeddict.required")
                    ELSE Conf(f[2], v, defs, p \o ".field", exact)])
          ELSE IF r.k # "obj" \/ r.cls # d.module \o "." \o d.py THEN p \o ".class.cls"
          ELSE FirstBad([i \in 1..Len(d.fields) |->
